@@ -328,6 +328,13 @@ def generate(rng, tier):
                 import struct
                 r32 = lambda q: struct.unpack("f", struct.pack("f", float(q)))[0]
                 op["Q"] = [r32(q) for q in op["Q"]] if isinstance(op["Q"], list) else r32(op["Q"])
+            if op.get("forms", {}).get("shift") == "npscalars" and op["shift"] is not None and len(ops) % 2 == 1:
+                # every other numpy-scalar shift is handed over as numpy float32 scalar(s) (no extra draw, so
+                # the histories of all other seeds are unchanged); judged for the VALUE passed, like a float32 Q
+                import struct
+                s32 = lambda q: struct.unpack("f", struct.pack("f", float(q)))[0]
+                op["forms"]["shift"] = "np32scalars"
+                op["shift"] = [s32(x) for x in op["shift"]] if isinstance(op["shift"], list) else s32(op["shift"])
             if rng.random() < 0.12:
                 # the same samples behind another memory layout
                 op["view"] = rng.choice(["fortran", "negstride", "readonly", "strided"])
@@ -1211,6 +1218,9 @@ def _apply_forms(np, forms, qa, oa, kw):
         sh = list(sh) if isinstance(sh, tuple) else [sh, sh]
         if f == "npscalars":
             kw["shift"] = tuple(np.float64(x) for x in sh)
+        elif f == "np32scalars":
+            kw["shift"] = tuple(np.float32(x) for x in sh)
+            lenient = True    # may be rejected cleanly; if accepted the answer must be right for the value passed
         elif f == "list":
             kw["shift"] = sh
             lenient = True
